@@ -217,3 +217,93 @@ Example C10_arp_nonvacuous :
   arp_notes ARP_CONVERGE [4; 0; 3; 1; 2] = [0; 4; 1; 3; 2] /\ arp_notes ARP_DIVERGE [0; 1; 2; 3] = [1; 2; 0; 3] /\
   arp_notes ARP_ROOTBOUNCE [0; 1; 2; 3] = [0; 1; 0; 2; 0; 3; 0; 2; 0; 1; 0].
 Proof. repeat split; vm_compute; reflexivity. Qed.
+
+(* ------------------------------------------------------------------------------------------------------------
+   SESSIONS: several pattern objects alive in one process, constructed / stepped / reset in interleaved order.
+   "Exactly the sequence its documentation defines" is a function of the object's OWN constructor arguments: in the
+   model, __init__ (init), next() (step) and reset() take the program text / the object and nothing else - there is no
+   process-global state - so, for EVERY session (list of  new <expression> | next i | reset i  in any order), the
+   outputs of the i-th object constructed are those of the same expression built and driven alone on the operations
+   the session applies to it (Pat/Session.v, lemmas Pat/SessionProofs.v).  The implementation is held to this by the
+   session strata of harness/c10.py: every program of a session is judged by its own reference list. *)
+From Isobar Require Import Pat.Session Pat.SessionProofs.
+
+Section Sessions.
+  Variable binop : op -> val -> val -> outcome val.
+  Variable LMAX f : nat.
+  Definition pat_build (e : pexpr) : option pat := match init binop LMAX f e with Yield p => Some p | _ => None end.
+  Definition pat_reset (p : pat) : pat := match reset binop LMAX f p with Yield p' => p' | _ => p end.
+
+  Theorem C10_session_isolation : forall (ops : list (sess_op pexpr)) i,
+    outputs_of _ i (sess_run pexpr pat _ pat_build (step binop LMAX f) pat_reset [] ops) =
+    match sess_prog _ i ops with
+    | Some e => match pat_build e with
+                | Some p => alone pat _ (step binop LMAX f) pat_reset p (sess_proj _ i 0 ops)
+                | None => []
+                end
+    | None => []
+    end.
+  Proof. exact (session_isolation pexpr pat _ pat_build (step binop LMAX f) pat_reset). Qed.
+
+  (* in particular: neither the other programs of the session nor the interleaving matter *)
+  Theorem C10_session_independent : forall (ops ops' : list (sess_op pexpr)) i,
+    sess_prog _ i ops = sess_prog _ i ops' -> sess_proj _ i 0 ops = sess_proj _ i 0 ops' ->
+    outputs_of _ i (sess_run pexpr pat _ pat_build (step binop LMAX f) pat_reset [] ops) =
+    outputs_of _ i (sess_run pexpr pat _ pat_build (step binop LMAX f) pat_reset [] ops').
+  Proof. exact (session_independent pexpr pat _ pat_build (step binop LMAX f) pat_reset). Qed.
+End Sessions.
+Print Assumptions C10_session_isolation.
+
+(* the same for arpeggiators (type, chord, loop) - the class the seeded change C10-f is about *)
+Theorem C10_arp_session_isolation : forall (ops : list (sess_op (Z * list Z * bool))) i,
+  outputs_of _ i (sess_run _ arp_obj _ arp_build arp_next arp_reset [] ops) =
+  match sess_prog _ i ops with
+  | Some p => match arp_build p with Some x => alone arp_obj _ arp_next arp_reset x (sess_proj _ i 0 ops) | None => [] end
+  | None => []
+  end.
+Proof. exact (session_isolation _ arp_obj _ arp_build arp_next arp_reset). Qed.
+Print Assumptions C10_arp_session_isolation.
+
+(* ARPEGGIATOR WITH `loop` (restart() with its looping variants: Pat/Session.v arp_offsets_loop).
+   Without loop the arrangement is the one-shot arrangement of C10_arp_arrangement; `loop` changes UPDOWN, DOWNUP and
+   ROOTBOUNCE only *)
+Theorem C10_arp_loop_flag : forall ty n,
+  arp_offsets_loop ty n false = arp_offsets ty n /\
+  (ty <> ARP_UPDOWN -> ty <> ARP_DOWNUP -> ty <> ARP_ROOTBOUNCE -> forall loop, arp_offsets_loop ty n loop = arp_offsets ty n).
+Proof. intros ty n. split; [apply arp_offsets_noloop|intros H1 H2 H3 loop; apply arp_offsets_loop_same; assumption]. Qed.
+
+(* chords of 2..8 notes, looping: UPDOWN = up, then down without either turning point (DOWNUP its mirror image), so that,
+   played round and round, no note is followed by itself, also not across the joint; ROOTBOUNCE (>= 3 notes) alternates
+   root, note, root, note ... round the joint too (complete enumeration; the bound is the property's own domain) *)
+Theorem C10_arp_loop_arrangement : forall n, (2 <= n <= 8)%nat -> loop_doc_ok n = true.
+Proof. exact arp_loop_doc. Qed.
+
+(* a looping arpeggiator in working order (arp_cyclic: notes, the arrangement restart() computes, entries that index the
+   chord) repeats its arrangement for ever: call j yields the note selected by entry j mod L - for ALL j *)
+Theorem C10_arp_loop_periodic : forall x, arp_cyclic x = true -> forall n j, (j < n)%nat ->
+  nth_error (arp_outputs n (with_pos x 0)) j =
+  Some (arp_sel x (Z.to_nat (Z.of_nat j mod Z.of_nat (List.length (ao_offsets x))))).
+Proof. exact arp_loop_periodic. Qed.
+
+(* and every looping arpeggiator the constructor builds over a chord of 1..8 notes - any note values, all 9
+   deterministic orders - is in working order *)
+Theorem C10_arp_built_cyclic : forall ty notes x, In ty ARP_TYPES -> (1 <= List.length notes <= 8)%nat ->
+  arp_build (ty, notes, true) = Some x -> arp_cyclic x = true.
+Proof. exact arp_built_cyclic. Qed.
+Print Assumptions C10_arp_loop_arrangement.
+Print Assumptions C10_arp_loop_periodic.
+Print Assumptions C10_arp_built_cyclic.
+
+(* non-vacuity: a looping and a one-shot UPDOWN arpeggiator over chords of the same size in one session, constructed
+   and stepped alternately: each plays its own arrangement (the looping one joins its cycles without a double note) *)
+Example C10_session_nonvacuous :
+  let a : Z * list Z * bool := (ARP_UPDOWN, [0; 4; 7], true) in
+  let b : Z * list Z * bool := (ARP_UPDOWN, [2; 5; 9], false) in
+  let ops := [SsNew a; SsNext 0; SsNew b; SsNext 1; SsNext 0; SsNext 1;
+              SsNext 0; SsNext 1; SsNext 0; SsNext 1; SsNext 0; SsNext 1; SsNext 0; SsNext 1]%nat in
+  let r := sess_run _ arp_obj _ arp_build arp_next arp_reset [] ops in
+  outputs_of _ 0%nat r = map (fun z => Yield (VInt z)) [0; 4; 7; 4; 0; 4] /\
+  outputs_of _ 1%nat r = map (fun z => Yield (VInt z)) [2; 5; 9; 5; 2] ++ [Stop] /\
+  arp_offsets_loop ARP_ROOTBOUNCE 4 true = Some [0; 1; 0; 2; 0; 3; 0; 2] /\
+  arp_offsets_loop ARP_ROOTBOUNCE 4 false = Some [0; 1; 0; 2; 0; 3; 0; 2; 0; 1; 0].
+Proof. repeat split; vm_compute; reflexivity. Qed.
